@@ -745,3 +745,180 @@ Proof.
   { intros k Hk. now apply filter_In in Hk. }
   exists rels. now rewrite E1.
 Qed.
+
+(* ------------------------------------------------------------------ a listing of "path" is the subtree below "path/" *)
+
+(** the ListObjectsV2 prefix of a directory path: "<prefix>/<path>/" (join_with_trailing_slash,
+    s3.rs:761) - the trailing slash is what keeps "obj10/..." out of a listing of "obj1" *)
+Lemma request_prefix_dir cp path : pfx_ok cp = true -> relb path = true ->
+  request_prefix cp path = under cp (path ++ [slash]).
+Proof.
+  intros Hc Hp. unfold request_prefix, join_ts. rewrite join_under by assumption.
+  apply relb_inv in Hp as (Hne & Hh & Hl).
+  assert (E : under cp path <> [] /\ last_is_slash (under cp path) = false).
+  { destruct cp as [|c cp]; cbn [under]; [now split|]. split; [discriminate|].
+    destruct path as [|d path]; [congruence|].
+    change (c :: cp ++ slash :: d :: path) with ((c :: cp ++ [slash]) ++ d :: path).
+    now rewrite last_is_slash_app. }
+  destruct E as [E1 E2]. apply is_nil_false in E1. rewrite E1, E2. cbn [negb andb].
+  destruct cp as [|c cp]; cbn [under]; [reflexivity|]. now rewrite <- app_assoc.
+Qed.
+
+Lemma starts_with_under cp a r : starts_with (under cp a) (under cp r) = starts_with a r.
+Proof.
+  destruct cp as [|c cp]; [reflexivity|]. unfold under.
+  replace ((c :: cp) ++ slash :: a) with (((c :: cp) ++ [slash]) ++ a) by now rewrite <- app_assoc.
+  replace ((c :: cp) ++ slash :: r) with (((c :: cp) ++ [slash]) ++ r) by now rewrite <- app_assoc.
+  apply starts_with_app_same.
+Qed.
+
+Lemma under_inj cp a r : under cp a = under cp r -> a = r.
+Proof.
+  destruct cp as [|c cp]; [auto|]. unfold under. intros H. apply app_inv_head in H. now injection H.
+Qed.
+
+Lemma split_slash_app a t : forall cur,
+  split_slash cur (a ++ slash :: t) = split_slash cur a ++ split_slash [] t.
+Proof.
+  induction a as [|c a IH]; intros cur.
+  - cbn [app split_slash]. replace (is_slash slash) with true by reflexivity. reflexivity.
+  - cbn [app split_slash]. destruct (is_slash c); [now rewrite IH|apply IH].
+Qed.
+
+Lemma segments_app a t : segments (a ++ slash :: t) = segments a ++ segments t.
+Proof. apply split_slash_app. Qed.
+
+Lemma split_slash_nonempty s : forall cur, split_slash cur s <> [].
+Proof. induction s as [|c s IH]; intros cur; cbn; [discriminate|]. destruct (is_slash c); [discriminate|apply IH]. Qed.
+
+Lemma concat_slash_cons s r : r <> [] -> concat_slash (s :: r) = s ++ slash :: concat_slash r.
+Proof. destruct r; [congruence|reflexivity]. Qed.
+
+Lemma concat_split_slash s : forall cur, concat_slash (split_slash cur s) = rev cur ++ s.
+Proof.
+  induction s as [|c s IH]; intros cur.
+  - cbn. now rewrite app_nil_r.
+  - cbn [split_slash]. destruct (is_slash c) eqn:C.
+    + apply is_slash_eq in C. subst c. rewrite concat_slash_cons by apply split_slash_nonempty.
+      now rewrite IH.
+    + rewrite IH. cbn [rev]. now rewrite <- app_assoc.
+Qed.
+
+(** cutting at the slashes and joining again is the identity, for every string *)
+Lemma concat_segments s : concat_slash (segments s) = s.
+Proof. apply (concat_split_slash s []). Qed.
+
+Lemma concat_slash_app a r : a <> [] -> r <> [] ->
+  concat_slash (a ++ r) = concat_slash a ++ slash :: concat_slash r.
+Proof.
+  induction a as [|s a IH]; [congruence|]. intros _ Hr. destruct a as [|s2 a].
+  - cbn [app]. now apply concat_slash_cons.
+  - change ((s :: s2 :: a) ++ r) with (s :: (s2 :: a) ++ r).
+    rewrite concat_slash_cons by discriminate. rewrite IH by (discriminate || assumption).
+    rewrite concat_slash_cons2. now rewrite <- app_assoc.
+Qed.
+
+(** a path lies below the directory [path] (begins with "path/") exactly when its segments are
+    ALL segments of [path] followed by at least one more: "obj10/v1/..." is not below "obj1",
+    its first segment differs.  For arbitrary strings. *)
+Lemma below_segments path rel :
+  starts_with (path ++ [slash]) rel = true <->
+  exists s, s <> [] /\ segments rel = segments path ++ s.
+Proof.
+  split.
+  - intros H. apply starts_with_inv in H as [t ->]. rewrite <- app_assoc. cbn [app].
+    exists (segments t). split; [apply split_slash_nonempty|apply segments_app].
+  - intros (s & Hs & E). rewrite <- (concat_segments rel), E.
+    rewrite concat_slash_app by (apply split_slash_nonempty || assumption).
+    rewrite concat_segments.
+    replace (path ++ slash :: concat_slash s) with ((path ++ [slash]) ++ concat_slash s) by now rewrite <- app_assoc.
+    apply starts_with_refl_app.
+Qed.
+
+(** the recursive listing of a directory path (list_objects, s3.rs:754-756) returns exactly
+    the stored paths below "path/", each once, in key order *)
+Lemma list_objects_below_lemma keys cp path :
+  pfx_ok cp = true -> relb path = true -> keys_boundary_ok cp keys ->
+  exists rels, list_all keys cp path false = Ok (rels, []) /\
+    map (under cp) rels = filter (starts_with (under cp (path ++ [slash]))) keys /\
+    forall rel, In rel rels <->
+                In (under cp rel) keys /\ exists s, s <> [] /\ segments rel = segments path ++ s.
+Proof.
+  intros Hc Hp Hb. destruct (list_objects_exact_lemma keys cp path Hc Hb) as (rels & E1 & E2).
+  rewrite request_prefix_dir in E2 by assumption.
+  exists rels. split; [exact E1|]. split; [exact E2|]. intros rel. rewrite <- below_segments.
+  rewrite <- (starts_with_under cp). split.
+  - intros Hin. apply (in_map (under cp)) in Hin. rewrite E2 in Hin. now apply filter_In in Hin.
+  - intros Hin. apply filter_In in Hin. rewrite <- E2 in Hin. apply in_map_iff in Hin as (r' & E & Hin).
+    apply under_inj in E. now subst r'.
+Qed.
+
+(* ------------------------------------------------------------------ purge_object removes that subtree and nothing else *)
+
+Lemma purge_filter_true {A} (l : list A) : filter (fun _ => true) l = l.
+Proof. induction l as [|a l IH]; cbn; [reflexivity|now rewrite IH]. Qed.
+
+Lemma purge_filter_filter {A} (P Q : A -> bool) l :
+  filter P (filter Q l) = filter (fun x => Q x && P x) l.
+Proof.
+  induction l as [|a l IH]; [reflexivity|]. cbn [filter]. destruct (Q a); cbn [filter andb]; now rewrite IH.
+Qed.
+
+Lemma purge_bk_remove_filter k bk : bk_remove k bk = filter (fun kv => negb (bytes_eqb k (fst kv))) bk.
+Proof.
+  induction bk as [|[k' v] bk IH]; [reflexivity|]. cbn [bk_remove filter fst].
+  destruct (bytes_eqb k k'); cbn [negb]; now rewrite IH.
+Qed.
+
+Lemma purge_fold_remove (ks : list bytes) : forall bk,
+  fold_left (fun b k => bk_remove k b) ks bk =
+  filter (fun kv => negb (existsb (fun k => bytes_eqb k (fst kv)) ks)) bk.
+Proof.
+  induction ks as [|k ks IH]; intros bk.
+  - cbn [fold_left existsb negb]. now rewrite purge_filter_true.
+  - cbn [fold_left]. rewrite IH, purge_bk_remove_filter, purge_filter_filter.
+    apply filter_ext. intros kv. cbn [existsb]. now rewrite negb_orb.
+Qed.
+
+Lemma purge_loop_nofault cp files : forall s,
+  purge_loop None cp files false s =
+  (false, mkSt (fold_left (fun b k => bk_remove k b) (map (join cp) files) (st_b s))
+               (st_n s + N.of_nat (List.length files))
+               (st_log s ++ map (fun p => RDelete (join cp p)) files)).
+Proof.
+  induction files as [|f r IH]; intros s.
+  - cbn. rewrite N.add_0_r, app_nil_r. now destruct s.
+  - cbn [purge_loop]. unfold delete_object, mreq. cbn [fst snd st_b st_n st_log].
+    rewrite IH. cbn [st_b st_n st_log map fold_left List.length]. f_equal. f_equal.
+    + lia.
+    + now rewrite <- app_assoc.
+Qed.
+
+(** without a failing request purge_object deletes exactly the keys below "<prefix>/<root>/"
+    and keeps every other key with its content *)
+Lemma purge_exact_lemma cp root bk :
+  pfx_ok cp = true -> relb root = true -> keys_boundary_ok cp (bk_keys bk) ->
+  let out := purge_object None cp root (init_st bk) in
+  fst out = Ok tt /\
+  st_b (snd out) = filter (fun kv => negb (starts_with (under cp (root ++ [slash])) (fst kv))) bk /\
+  st_log (snd out) = map RDelete (filter (starts_with (under cp (root ++ [slash]))) (bk_keys bk)).
+Proof.
+  intros Hc Hp Hb.
+  destruct (list_objects_below_lemma (bk_keys bk) cp root Hc Hp Hb) as (rels & E1 & E2 & E3).
+  assert (J : map (join cp) rels = map (under cp) rels).
+  { apply map_ext_in. intros p Hin. apply E3 in Hin as [_ Hs]. apply below_segments in Hs.
+    apply starts_with_inv in Hs as [t ->]. apply relb_inv in Hp as (Hne & Hh & _).
+    destruct cp as [|c cp]; [apply join_nil_l|]. apply join_rel; auto; try discriminate.
+    - destruct root; [congruence|discriminate].
+    - destruct root; [congruence|exact Hh]. }
+  cbv zeta. unfold purge_object, init_st. cbn [st_b]. rewrite E1, purge_loop_nofault.
+  cbn [fst snd st_b st_log app]. split; [reflexivity|]. split.
+  - rewrite J, E2, purge_fold_remove. apply filter_ext_in. intros kv Hin. f_equal.
+    set (f := starts_with (under cp (root ++ [slash]))).
+    destruct (f (fst kv)) eqn:F.
+    + apply existsb_exists. exists (fst kv). split; [|apply bytes_eqb_eq; reflexivity].
+      apply filter_In. split; [|exact F]. unfold bk_keys. now apply in_map.
+    + destruct (existsb _ _) eqn:X; [|reflexivity]. apply existsb_exists in X as (k & Hk & Ek).
+      apply bytes_eqb_eq in Ek. subst k. apply filter_In in Hk as [_ Hk]. fold f in Hk. congruence.
+  - rewrite <- E2, <- J, map_map. reflexivity.
+Qed.
